@@ -347,7 +347,30 @@ func intsEq(spec interface{}, got []int) bool {
 	return true
 }
 
-func replayKeybase(in, variants string, sample, offset int) {
+// probeStore checks the whole abstract state after a history: every stored key is handed out
+// for exactly the passphrase the specification says protects it (one scrypt per pair).
+func (w *kbWorld) probeStore(st []int, npass int) (what string, want, got interface{}) {
+	for i, p := range st {
+		k := i + 1
+		for q := 0; q < npass; q++ {
+			exp := 0
+			if p == q {
+				exp = k
+			}
+			priv, err := w.kb.ExportPrivateKeyObject(w.addrOf(k), pass(q))
+			g := 0
+			if err == nil {
+				g = w.identify(priv)
+			}
+			if g != exp {
+				return fmt.Sprintf("final-state probe: key %d with passphrase %d", k, q), exp, g
+			}
+		}
+	}
+	return "", nil, nil
+}
+
+func replayKeybase(in, variants string, sample, offset, npass int) {
 	silenceStdout()
 	rep := hx.NewReport("crypto", "replay-keybase")
 	vs := strings.Split(variants, ",")
@@ -368,9 +391,13 @@ func replayKeybase(in, variants string, sample, offset int) {
 		variant := vs[idx%len(vs)]
 		w := newKbWorld(variant, rand.New(rand.NewSource(hx.Seed()*7919+int64(idx))), idx%50)
 		defer w.close()
+		var lastSt []int
 		for si, s := range beh {
 			rep.Steps++
 			rep.OpCounts[s.Str("op")]++
+			if s.Has("st") {
+				lastSt = toInts(s["st"])
+			}
 			var ret, list []int
 			var fail string
 			if e := catch(func() { ret, list, fail = w.exec(s) }); e != "" {
@@ -387,6 +414,18 @@ func replayKeybase(in, variants string, sample, offset int) {
 			if s.Has("list") && !intsEq(s["list"], list) {
 				rep.AddMismatch(hx.Mismatch{Behaviour: idx, Step: si, Op: s.Str("op"), What: "list", Want: s["list"], Got: list, History: beh, Variant: variant})
 				return
+			}
+		}
+		// after a history that ends in a mutation (and after every simulated history): the full state
+		if lastSt != nil && (beh[len(beh)-1].Has("st") || len(beh) >= 8) {
+			var what string
+			var want, got interface{}
+			if e := catch(func() { what, want, got = w.probeStore(lastSt, npass) }); e != "" {
+				what, got = "exec", e
+			}
+			rep.OpCounts["probe"]++
+			if what != "" {
+				rep.AddMismatch(hx.Mismatch{Behaviour: idx, Step: len(beh) - 1, Op: beh[len(beh)-1].Str("op"), What: what, Want: want, Got: got, History: beh, Variant: variant})
 			}
 		}
 	})
